@@ -12,6 +12,10 @@ na_reasons = json.load(open(na_path)) if os.path.exists(na_path) else {}
 baseline = json.load(open("/root/.vp/BASELINE.json"))["cmd"] if os.path.exists("/root/.vp/BASELINE.json") else ""
 hooks_path = os.path.join(ROOT, "hooks.json")
 hooks = json.load(open(hooks_path)) if os.path.exists(hooks_path) else {"source_commits": []}
+claimed_path = os.path.join(ROOT, 'claimed.json')
+claimed = set(json.load(open(claimed_path))) if os.path.exists(claimed_path) else None
+if claimed is not None:
+    cfg['checks'] = {k: v for k, v in cfg['checks'].items() if k in claimed}
 checks = []
 for p in props:
     pid = p["id"]
